@@ -49,7 +49,7 @@ def gen_dh(rng, tier, mult):
                 ops.append("pub %s %s" % (hx(priv), hx(rnd32(r))))
                 ops.append("pub %s %s" % (hx(priv), hx(rnd32(r))))
             elif k < 60:
-                ops.append("compute %s %s %s" % (hx(peer(r)), hx(rnd32(r)), hx(rnd32(r))))
+                ops.append("compute %s %s %s%s" % (hx(peer(r)), hx(rnd32(r)), hx(rnd32(r)), " inplace" if r.chance(1, 4) else ""))
             elif k < 70:
                 ops.append("generate %s %s" % (hx(rnd32(r)), hx(rnd32(r))))
             elif k < 75:
